@@ -575,9 +575,9 @@ def run(ctx):
         ctx.check("operands-unchanged", tmap == tmap_before, "add_fields/callers-type-map-changed", "the field_type_map handed to add_fields was %r before and %r after" % (sorted(tmap_before), sorted(tmap)), {"before": sorted(tmap_before), "after": sorted(tmap)}, ("tmapd", tuple(kinds), bool(tmap_before)))
         ctx.count("construction_from_columns")
 
-    for i in range(ctx.share(ctx.pick(6000, 80000))):
+    for i in range(ctx.share(ctx.pick(6000, 320000))):
         ctx.run_case(program, {"seed": rng.randrange(2 ** 40)})
-    for i in range(ctx.share(ctx.pick(400, 6000))):
+    for i in range(ctx.share(ctx.pick(400, 30000))):
         ctx.run_case(construction_from_columns, {"seed": rng.randrange(2 ** 40)})
     if ctx.shard == 0:
         ctx.run_case(construction, {"seed": 1})
